@@ -12,9 +12,9 @@ pub fn run(tier: Tier, seed: u64) {
         "zkchannels_crypto::pointcheval_sanders::PublicKey: ToPedersenParameters<G1>, <G2>",
         "zkchannels_crypto::common::inner_product",
     ]);
-    eng::bound("tuple length N in {1,2,3,5} (quick) + {8,13} (thorough); groups G1 and G2; one instantiation each");
+    eng::bound("tuple length N in {1,2,3,5,8,13} in both tiers; groups G1 and G2; one instantiation each");
     eng::assumption("generators passed to from_generators are arbitrary (possibly identity) unless a lemma says otherwise");
-    crate::for_each_n!(tier, unit, seed, tier);
+    crate::for_each_n_all!(unit, seed, tier);
 }
 
 fn unit<const N: usize>(seed: u64, tier: Tier) {
